@@ -181,6 +181,7 @@ def main(tier, seed):
             else:
                 p = rand_prog(rng, grammar=True)
                 if rng.random() < 0.2: p = p + idiom_read(rng) + idiom_print(rng)
+                if rng.random() < 0.03: p = idiom_jump_from_zero(rng) + p[:3]       # command 0 as a jump source / return point
             progs.append((p, rand_stdin(rng)))
         encs = [enc_prog(p) for p, _ in progs]
         # (i) emitted text: implementation vs model
